@@ -74,6 +74,11 @@ class LimbPoly:
             if op in ("Mul", "MulUnchecked"):
                 return self.val(a) * self.val(b)
             if op in ("Shl", "ShlUnchecked") and ssa.is_c(b):
+                W_ = ssa.WIDTH.get(t[4]) if len(t) > 4 else None
+                if self.narrow and W_ and 0 < b[1] < W_ and not ssa.is_signed(t[4]) and W_ <= 32:
+                    # a left shift in a narrow unsigned word drops the bits shifted out:  (x << k) mod 2^W = (x mod 2^(W-k)) * 2^k
+                    xs_ = self._strip_cast(a)
+                    return (self.val(xs_) - self.q(xs_, W_ - b[1]) * (1 << (W_ - b[1]))) * (1 << b[1])
                 return self.val(a) * (1 << b[1])
             if op in ("Shr", "ShrUnchecked") and ssa.is_c(b):
                 # (v << a) >> b  with b > a   ==  v >> (b - a)
